@@ -63,7 +63,28 @@ func writeSettings(fname string, settings *settings) error {
 		return fmt.Errorf("failed to create settings directory: %w", err)
 	}
 
-	if err := os.WriteFile(fname, data, 0644); err != nil {
+	// Write to a temporary file in the same directory and rename it over the
+	// settings file, so that a crash or a failed write never leaves a partial
+	// settings file behind.
+	tmp, err := os.CreateTemp(filepath.Dir(fname), filepath.Base(fname)+".tmp*")
+	if err != nil {
+		return fmt.Errorf("failed to write settings: %w", err)
+	}
+	_, err = tmp.Write(data)
+	if err == nil {
+		err = tmp.Chmod(0644)
+	}
+	if err == nil {
+		err = tmp.Sync()
+	}
+	if cerr := tmp.Close(); err == nil {
+		err = cerr
+	}
+	if err == nil {
+		err = os.Rename(tmp.Name(), fname)
+	}
+	if err != nil {
+		os.Remove(tmp.Name())
 		return fmt.Errorf("failed to write settings: %w", err)
 	}
 	return nil
